@@ -356,6 +356,7 @@ def main_c18(tier):
         "chunk_schedules": chunk_kinds,
         "states_measure": "distinct (tool, input kind, output kind) shapes reached",
         "states": len(env_shapes),
+        "options_rejected_by_parser": sum(1 for r in recs for x in r["runs"] if x["cls"] == "options_rejected"),
         "skip_equivalence_cases": sum(1 for r in recs for x in r["runs"] if x["env"] == "skip-stripped"),
         "fixture_cases": sum(1 for r in recs if r["fixture"]),
         "components": COMPONENTS,
